@@ -123,7 +123,27 @@ func runHook(c discCase) *rp.Fail {
 	if pn != nil {
 		return rp.Failf("hook/panic", "GetDevices panicked: %v", pn)
 	}
-	return compare("hook", c, expected(c, 0), actual(list), err, true)
+	if f := compare("hook", c, expected(c, 0), actual(list), err, true); f != nil {
+		return f
+	}
+	// a second discovery on the same client (datagrams in reverse order): nothing may be carried over
+	rev := c
+	rev.Datagrams = nil
+	for i := len(c.Datagrams) - 1; i >= 0; i-- {
+		rev.Datagrams = append(rev.Datagrams, c.Datagrams[i])
+	}
+	d.Reset(rev.Datagrams...)
+	func() {
+		defer func() { pn = recover() }()
+		list, err = u.GetDevices()
+	}()
+	if pn != nil {
+		return rp.Failf("hook/panic", "second GetDevices panicked: %v", pn)
+	}
+	if f := compare("hook/second-discovery", rev, expected(rev, 0), actual(list), err, true); f != nil {
+		return f
+	}
+	return nil
 }
 
 func runSocket(c discCase, scale int) *rp.Fail {
